@@ -74,10 +74,10 @@ CHECKS = {
                           "boundary cases + native sweep of the 32-bit domain against the tables TLC exports",
                 corpora=["typeids", "fb"],
                 # native sweeps against the interval tables exported by MC_TypeIds: (which, table, quick stride, thorough stride)
-                sweeps=[("tag_type", "tag_type", 251, 1), ("mem_area_type", "mem_area_type", 251, 1), ("elf_type", "elf_type", 4099, 1)],
+                sweeps=[("tag_type", "tag_type", 1, 1), ("mem_area_type", "mem_area_type", 1, 1), ("elf_type", "elf_type", 1, 1)],
                 sweep_model="typeids",
                 rule="TLC-judged: every interval end point +-2 of the three classification tables and structured values, each with 3 partner "
-                     "values for the equality relations; all 256 framebuffer type bytes; native sweep of u32 values (stride 1 = all 2^32 in the "
+                     "values for the equality relations; all 256 framebuffer type bytes; native sweep of all 2^32 u32 values "
                      "thorough tier) against the interval tables exported from the specification"),
     "C15": dict(thorough_extra=["mut"], corpora=["custom", "dst", "sized", "hdst", "fields", "getters"],
                 rule="user-defined family (sized tags with 0..6 extra words; DST tails with element sizes 1,2,3,4,8,24 x fixed parts 8..24) "
